@@ -8,7 +8,9 @@ package anndbverif
 // boundary (hook H3), the discrete-event driver and the event log.
 
 import (
+	"bytes"
 	"context"
+	"encoding/json"
 	"fmt"
 	"io"
 	"os"
@@ -61,6 +63,8 @@ type W3Cfg struct {
 	Net            NetCfg `json:"net"`
 	SnapshotOffset int64  `json:"snapshot_offset"` // knob (rewrite R4); 5000 is the shipped value
 	YieldP         int    `json:"yield_p"`         // /256 probability of Gosched at a rewrite-inserted yield point
+	Deep           int    `json:"deep,omitempty"`  // /1024 probability that a yield point parks the goroutine until every other goroutine has run as far as it can (a 1 ns sleep on the fake clock): a thread the OS does not schedule for a while
+	Burst          int    `json:"burst,omitempty"` // % probability that the events due within the next 2 ms are started together with the one that is due (their handlers then run concurrently and interleave at the yield points)
 }
 
 type simNode struct {
@@ -135,34 +139,36 @@ type applyRec struct {
 }
 
 type Sim struct {
-	cfg     W3Cfg
-	out     *Outcome
-	baseDir string
-	t0      time.Time
-	rnet    *simrt.Rand
-	rfault  *simrt.Rand
-	ryield  *simrt.Rand
-	nodes   []*simNode
-	byId    map[uint64]*simNode
-	byAddr  map[string]*simNode
-	byDB    map[*badger.DB]*simNode
-	dbInc   map[*badger.DB]int
-	mu      sync.Mutex // guards inbox, seq (product goroutines post, driver drains)
-	inbox   []func()
-	calls   []*simCall
-	seq     uint64
-	postSeq uint64
-	events  []*simEvent // heap by (at, seq)
-	evSeq   uint64
-	blocked map[[2]uint64]bool // directed link from->to blocked
-	h       uint64
-	log     []string
-	wantLog bool
-	applies []applyRec
-	steps   int
-	gcNext  uint64 // heap size at which the driver collects garbage (at quiescence)
-	gcs     int
-	stopped bool
+	cfg        W3Cfg
+	out        *Outcome
+	baseDir    string
+	t0         time.Time
+	rnet       *simrt.Rand
+	rburst     *simrt.Rand
+	deepYields int
+	rfault     *simrt.Rand
+	ryield     *simrt.Rand
+	nodes      []*simNode
+	byId       map[uint64]*simNode
+	byAddr     map[string]*simNode
+	byDB       map[*badger.DB]*simNode
+	dbInc      map[*badger.DB]int
+	mu         sync.Mutex // guards inbox, seq (product goroutines post, driver drains)
+	inbox      []func()
+	calls      []*simCall
+	seq        uint64
+	postSeq    uint64
+	events     []*simEvent // heap by (at, seq)
+	evSeq      uint64
+	blocked    map[[2]uint64]bool // directed link from->to blocked
+	h          uint64
+	log        []string
+	wantLog    bool
+	applies    []applyRec
+	steps      int
+	gcNext     uint64 // heap size at which the driver collects garbage (at quiescence)
+	gcs        int
+	stopped    bool
 	// observers
 	onRaftMsg      func(from *simNode, to uint64, group uuid.UUID, m raftpb.Message)
 	onApply        func(a applyRec)
@@ -308,6 +314,7 @@ func newSim(cfg W3Cfg, out *Outcome, wantLog bool) *Sim {
 		blocked: map[[2]uint64]bool{}, rpcCount: map[string]int{}, release: make(chan struct{}), killedGroups: map[*raft.RaftGroup]bool{}}
 	root := simrt.NewRand(cfg.Seed)
 	s.rnet = root.Split("net")
+	s.rburst = root.Split("burst")
 	s.rfault = root.Split("fault")
 	s.ryield = root.Split("yield")
 	seedRuntime(cfg.Seed)
@@ -324,16 +331,27 @@ func newSim(cfg W3Cfg, out *Outcome, wantLog bool) *Sim {
 	}
 	raft.VerifSetSnapshotOffset(so)
 	yp := cfg.YieldP
+	deep := cfg.Deep
 	yseed := s.ryield.Uint64()
 	ytraceOn := os.Getenv("VERIF_YTRACE") != ""
 	simrt.YieldFn = func(site int) {
 		if ytraceOn { // development aid: the interleaving of all yield points, for diffing two executions
 			ytrace = append(ytrace, fmt.Sprintf("%d %d s%d t=%v", runtimeVerifGetTag(), goid(), site, time.Since(s.t0)))
 		}
-		if yp > 0 {
+		if yp > 0 || deep > 0 {
 			// a function of the seed, the goroutine's label and its own draw count: no shared stream
 			z := mix64(yseed ^ runtimeVerifGetTag()*0x9e3779b97f4a7c15 ^ runtimeVerifNextCount()<<20 ^ uint64(site))
-			if int(z%256) < yp {
+			if deep > 0 && int((z>>16)%1024) < deep {
+				// everybody else runs until it blocks (whole chains of hand-offs: a raft message
+				// received, persisted and applied), then this goroutine goes on
+				s.deepYields++
+				d := time.Nanosecond
+				if (z>>30)%2 == 0 {
+					// ... or is not scheduled for a few milliseconds, during which the network goes on delivering
+					d = time.Duration(500+(z>>32)%3500) * time.Microsecond
+				}
+				time.Sleep(d)
+			} else if int(z%256) < yp {
 				runtime.Gosched()
 			}
 		}
@@ -343,12 +361,12 @@ func newSim(cfg W3Cfg, out *Outcome, wantLog bool) *Sim {
 	wal.VerifIOHook = s.ioHook
 	raft.VerifOnApply = func(nodeId uint64, group uuid.UUID, e raftpb.Entry) {
 		n := s.byId[nodeId]
-		inc := 0
-		if n != nil {
-			inc = n.inc
+		inc := s.incOfCaller(n)
+		if n != nil && n.dead[inc] {
+			return // a goroutine of a crashed incarnation that has not reached its parking place yet: the process is gone
 		}
 		a := applyRec{node: nodeId, inc: inc, group: group, index: e.Index, term: e.Term, dig: simrt.HashBytes(uint64(e.Type)+1, e.Data), typ: e.Type}
-		if s.onApplySync != nil && n != nil && n.alive && n.parts != nil {
+		if s.onApplySync != nil && n != nil && n.alive && n.parts != nil && inc == n.inc {
 			s.onApplySync(n, group, e.Index)
 		}
 		s.post(func() {
@@ -359,28 +377,28 @@ func newSim(cfg W3Cfg, out *Outcome, wantLog bool) *Sim {
 		})
 	}
 	raft.VerifOnSnapshotApplied = func(nodeId uint64, group uuid.UUID, index, term uint64) {
+		n := s.byId[nodeId]
+		inc := s.incOfCaller(n)
+		if n != nil && n.dead[inc] {
+			return
+		}
 		s.post(func() {
 			s.out.Stat("follower_installed_snapshot", 1)
 			s.logf("n%d group %s installed snapshot at %d", s.nodeIdx(nodeId), shortG(group), index)
 			if s.onApply != nil {
-				n := s.byId[nodeId]
-				inc := 0
-				if n != nil {
-					inc = n.inc
-				}
 				s.onApply(applyRec{node: nodeId, inc: inc, group: group, index: index, term: term, typ: -1})
 			}
 		})
 	}
 	raft.VerifOnStart = func(nodeId uint64, group uuid.UUID, index uint64) {
 		// a (re)started group instance applies from the entry after its own snapshot
+		n := s.byId[nodeId]
+		inc := s.incOfCaller(n)
+		if n != nil && n.dead[inc] {
+			return
+		}
 		s.post(func() {
 			if s.onApply != nil {
-				n := s.byId[nodeId]
-				inc := 0
-				if n != nil {
-					inc = n.inc
-				}
 				s.onApply(applyRec{node: nodeId, inc: inc, group: group, index: index, typ: -1})
 			}
 		})
@@ -1285,6 +1303,81 @@ func (s *Sim) step() {
 	}
 	ev := s.popEvent()
 	ev.fn()
+	s.burst()
+}
+
+// withSchedKnobs wraps a generator of World III cases: after the case is drawn, the
+// scheduling knobs Burst and Deep of its W3Cfg ("cfg" at the top level or under "w3")
+// are drawn from a stream split off the generator's, unless the generator set them.
+func withSchedKnobs(gen func(*simrt.Rand, string) json.RawMessage) func(*simrt.Rand, string) json.RawMessage {
+	return func(r *simrt.Rand, tier string) json.RawMessage {
+		raw := gen(r, tier)
+		rr := r.Split("sched-knobs")
+		dec := json.NewDecoder(bytes.NewReader(raw))
+		dec.UseNumber()
+		var m map[string]interface{}
+		if dec.Decode(&m) != nil {
+			return raw
+		}
+		holder := m
+		if w3, ok := m["w3"].(map[string]interface{}); ok {
+			holder = w3
+		}
+		cfg, ok := holder["cfg"].(map[string]interface{})
+		if !ok {
+			return raw
+		}
+		if _, set := cfg["burst"]; set {
+			return raw
+		}
+		if _, set := cfg["deep"]; set {
+			return raw
+		}
+		if b := []int{0, 0, 20, 50}[rr.Intn(4)]; b > 0 {
+			cfg["burst"] = b
+		}
+		if d := []int{0, 0, 40, 160}[rr.Intn(4)]; d > 0 {
+			cfg["deep"] = d
+		}
+		out, err := json.Marshal(m)
+		if err != nil {
+			return raw
+		}
+		return out
+	}
+}
+
+// incOfCaller: the incarnation of node n the calling goroutine belongs to (goroutines carry
+// the label node*1000+incarnation of whoever started them; a goroutine of a crashed
+// incarnation can still be on its way to its parking place when the next one is up).
+func (s *Sim) incOfCaller(n *simNode) int {
+	if n == nil {
+		return 0
+	}
+	if tag := runtimeVerifGetTag(); tag/1000 == n.id {
+		return int(tag % 1000)
+	}
+	return n.inc
+}
+
+// burst: several stimuli at (nearly) the same instant. With the per-run probability
+// cfg.Burst, whatever else is due within the next 2 ms is started now as well, before
+// anybody runs; the handlers are then runnable together and the seeded scheduler
+// interleaves them at the yield points. (Delivering a message a little earlier than
+// drawn is a latency the network could have had.)
+func (s *Sim) burst() {
+	if s.cfg.Burst <= 0 || s.rburst.Intn(100) >= s.cfg.Burst {
+		return
+	}
+	now := s.now()
+	k := 0
+	for len(s.events) > 0 && s.events[0].at <= now+2*time.Millisecond && k < 3 {
+		s.popEvent().fn()
+		k++
+	}
+	if k > 0 {
+		s.out.Stat("bursts_of_concurrent_stimuli", 1)
+	}
 }
 
 // runUntil drives the simulation until cond() holds or max simulated time passed.
@@ -1354,6 +1447,7 @@ func (s *Sim) client(n *simNode, name string, timeout time.Duration, fn func(ctx
 			s.logf("client n%d %s -> err=%v", n.idx, name, err)
 		})
 	}()
+	s.burst() // a client request may arrive together with whatever the network is about to deliver
 	return op
 }
 
